@@ -320,10 +320,19 @@ def rule_loader(ctx, repo):
     depends on it must fail under one of them)."""
     mod = repo.module(DS)
     entries = ["_load_dataset"]
+    reach = {"_load_dataset"}
+    changed = True
+    while changed:  # module-level call graph: everything that (transitively) loads through _load_dataset
+        changed = False
+        for nm, node in mod.defs.items():
+            if isinstance(node, ast.FunctionDef) and nm not in reach and any(
+                    isinstance(c.func, ast.Name) and c.func.id in reach for c in astq.calls(node)):
+                reach.add(nm)
+                changed = True
     for nm, node in mod.defs.items():
-        if isinstance(node, ast.FunctionDef) and nm != "_load_dataset" and any(
-                isinstance(c.func, ast.Name) and c.func.id == "_load_dataset" for c in astq.calls(node)):
-            entries.append(nm)  # public loaders: thin wrappers whose result the property observes
+        if isinstance(node, ast.FunctionDef) and nm in reach and nm != "_load_dataset" \
+                and {"split", "return_X_y"} <= set(astq.param_names(node)):
+            entries.append(nm)  # loaders whose result the property observes (thin wrappers and their shared helpers)
     ctx.count("loader_entry_points", len(entries))
     for entry in entries:
         fn = mod.defs[entry]
